@@ -22,7 +22,10 @@ for i in IDS:
          T(["C", "s", "+", "t", "-", "0", "*", "ID:Z:" + i])]
 U1 += [T(["L", "s", "-", "t", "+", "*"]), T(["S", "s", "*"]),
        T(["P", "y", "x+", "*"]), T(["L", "x", "+", "1", "-", "*"]),
-       T(["L", "s", "+", "y", "-", "*", "ID:Z:2"])]            # `y` as a segment
+       T(["L", "s", "+", "y", "-", "*", "ID:Z:2"]),            # `y` as a segment
+       # a path over s+ -> t-: it makes a placeholder for that link, which the
+       # ID-tagged links above then replace (their ID may be the path's name)
+       T(["P", "1", "s+,t-", "*"])]
 U2 = []
 for i in IDS:
   U2 += [T(["S", i, "4", "*"]), T(["E", i, "s+", "t-", "0", "1", "0", "1", "*"]),
@@ -201,7 +204,8 @@ S(name="c09.int1", universe=UI1, version="gfa1", rename_targets=("9", "10", "100
   lookups=["9", "10", "08", "8", "100", "x", "*"])
 S(name="c09.int2", universe=UI2, version="gfa2", rename_targets=("9", "10", "100"),
   lookups=["9", "10", "08", "8", "100", "11", "x", "*"])
-S(name="c09.g1", universe=U1, version="gfa1", rename_targets=tuple(IDS))
+S(name="c09.g1", universe=U1, version="gfa1", rename_targets=tuple(IDS),
+  unname_ops=True)
 S(name="c09.g2", universe=U2, version="gfa2", rename_targets=tuple(IDS))
 
 
